@@ -606,6 +606,195 @@ func (n *names) ledgerPostings(ps ledger.Postings) string {
 	return "[" + strings.Join(xs, "; ") + "]"
 }
 
+// ---- C14: differential runs with / without a preview (sequential histories, as the property quantifies) ----
+
+type seqResult struct {
+	Disk   []string
+	Events []string
+	Resps  []string
+}
+
+func canonEntry(l *ledger.ChainedLog) string {
+	var b strings.Builder
+	fmt.Fprintf(&b, "id=%s type=%s ik=%q", l.ID, l.Type, l.IdempotencyKey)
+	if tx := txOf(l); tx != nil {
+		fmt.Fprintf(&b, " tx=%s ref=%q", tx.ID, tx.Reference)
+		for _, p := range tx.Postings {
+			fmt.Fprintf(&b, " %s>%s:%s", p.Source, p.Destination, p.Amount)
+		}
+	}
+	if p, ok := l.Data.(ledger.RevertedTransactionLogPayload); ok {
+		fmt.Fprintf(&b, " reverts=%s", p.RevertedTransactionID)
+	}
+	return b.String()
+}
+
+// runSequential executes the requests one after the other on one disk; skip[i] requests are executed but their
+// response / events are left out of the result (the preview itself); restartAt >= 0 restarts the commander there.
+func runSequential(reqs []engx.Req, skip map[int]bool, restartAt int) (seqResult, string) {
+	disk := &engx.Disk{}
+	var res seqResult
+	i := 0
+	for i < len(reqs) {
+		j := len(reqs)
+		if restartAt > i {
+			j = restartAt
+		}
+		chunk := reqs[i:j]
+		s := engx.New(disk, chunk)
+		for !s.Done() && s.Fault == "" {
+			en := s.Enabled()
+			pick := en[0]
+			for _, want := range []string{"resume", "persist_ok", "start"} {
+				found := false
+				for _, c := range en {
+					if c.Kind == want {
+						pick, found = c, true
+						break
+					}
+				}
+				if found {
+					break
+				}
+			}
+			s.Do(pick)
+		}
+		if s.Fault != "" {
+			s.Close()
+			return res, s.Fault
+		}
+		for k, r := range s.Responses() {
+			if skip[i+k] {
+				continue
+			}
+			res.Resps = append(res.Resps, fmt.Sprintf("ok=%v err=%s tx=%s", r.OK, r.Err, r.TxID))
+		}
+		for _, p := range s.Published {
+			if skip[i+p.Tid] {
+				res.Events = append(res.Events, "PREVIEW-EVENT:"+p.Kind)
+				continue
+			}
+			tx := ""
+			if p.Tx != nil {
+				tx = p.Tx.ID.String()
+			}
+			res.Events = append(res.Events, p.Kind+":"+tx)
+		}
+		s.Close()
+		i = j
+	}
+	for _, l := range disk.Logs {
+		res.Disk = append(res.Disk, canonEntry(l))
+	}
+	return res, ""
+}
+
+func genHistory(g *vx.Rng, n int, txSoFar *int) []engx.Req {
+	accs := []string{"alice", "bob", "carol"}
+	var h []engx.Req
+	for k := 0; k < n; k++ {
+		switch c := g.Intn(10); {
+		case c < 2:
+			h = append(h, fund(accs[g.Intn(3)], 10+g.Intn(90)))
+			*txSoFar++
+		case c < 6:
+			r := xfer(1+g.Intn(60), accs[g.Intn(3)], accs[g.Intn(3)])
+			if g.Chance(1, 4) {
+				r.Reference = fmt.Sprintf("r%d", g.Intn(3))
+			}
+			if g.Chance(1, 4) {
+				r.IK = fmt.Sprintf("k%d", g.Intn(3))
+			}
+			h = append(h, r)
+			*txSoFar++ // may fail; ids then differ, which is fine: both runs see the same
+		case c < 8:
+			h = append(h, engx.Req{Kind: "revert", RevertID: int64(g.Intn(*txSoFar + 1)), Force: g.Chance(1, 3)})
+		case c < 9:
+			h = append(h, engx.Req{Kind: "savemeta", Target: "ACCOUNT", TargetID: accs[g.Intn(3)], Meta: map[string]string{"k": fmt.Sprint(g.Intn(3))}})
+		default:
+			h = append(h, engx.Req{Kind: "delmeta", Target: "ACCOUNT", TargetID: accs[g.Intn(3)], Key: "k"})
+		}
+	}
+	return h
+}
+
+func eqs(a, b []string) bool {
+	if len(a) != len(b) {
+		return false
+	}
+	for i := range a {
+		if a[i] != b[i] {
+			return false
+		}
+	}
+	return true
+}
+
+func previewDifferential(r *vx.Run, n int) {
+	g := vx.NewRng(r.Seed ^ 0xC14)
+	for k := 0; k < n; k++ {
+		txs := 0
+		h1 := append([]engx.Req{fund("alice", 100)}, genHistory(g, g.Intn(4), &txs)...)
+		txs++
+		q := genHistory(g, 1, &txs)[0]
+		q.DryRun = true
+		h2 := genHistory(g, 1+g.Intn(4), &txs)
+		with := append(append(append([]engx.Req{}, h1...), q), h2...)
+		without := append(append([]engx.Req{}, h1...), h2...)
+		restart := -1
+		if g.Chance(1, 3) {
+			restart = len(h1) + 1 + g.Intn(len(h2))
+		}
+		a, f1 := runSequential(with, map[int]bool{len(h1): true}, restart)
+		restartB := restart
+		if restartB > 0 {
+			restartB--
+		}
+		b, f2 := runSequential(without, nil, restartB)
+		in := map[string]any{"h1": h1, "preview": q, "h2": h2, "restart_at": restart}
+		if f1 != "" || f2 != "" {
+			r.Count("harness-fault")
+			continue
+		}
+		r.Count("preview-differential")
+		r.Count("preview-kind:" + q.Kind)
+		size := len(with)
+		for _, e := range a.Events {
+			if strings.HasPrefix(e, "PREVIEW-EVENT") {
+				r.FailP("C14", "preview-published-an-event", in, e, size)
+				r.FailP("C16", "event-for-a-preview", in, e, size)
+			}
+		}
+		var evA []string
+		for _, e := range a.Events {
+			if !strings.HasPrefix(e, "PREVIEW-EVENT") {
+				evA = append(evA, e)
+			}
+		}
+		if !eqs(a.Disk, b.Disk) {
+			sig := "preview-changed-the-log"
+			if len(a.Disk) == len(b.Disk) {
+				sig = "preview-consumed-a-transaction-id"
+			}
+			r.FailP("C14", sig, in, fmt.Sprintf("with preview: %v | without: %v", a.Disk, b.Disk), size)
+		} else if !eqs(a.Resps, b.Resps) {
+			r.FailP("C14", "later-requests-answer-differently", in, fmt.Sprintf("with preview: %v | without: %v", a.Resps, b.Resps), size)
+		} else if !eqs(evA, b.Events) {
+			r.FailP("C14", "later-events-differ", in, fmt.Sprintf("with preview: %v | without: %v", evA, b.Events), size)
+		}
+		// the preview answers what the real write would answer
+		real := q
+		real.DryRun = false
+		c, f3 := runSequential(append(append([]engx.Req{}, h1...), real), nil, -1)
+		d, f4 := runSequential(append(append([]engx.Req{}, h1...), q), nil, -1)
+		if f3 == "" && f4 == "" && len(c.Resps) > 0 && len(d.Resps) > 0 && c.Resps[len(c.Resps)-1] != d.Resps[len(d.Resps)-1] {
+			r.FailP("C14", "preview-answers-differently-from-the-real-write:"+q.Kind, in, fmt.Sprintf("real: %s | preview: %s", c.Resps[len(c.Resps)-1], d.Resps[len(d.Resps)-1]), size)
+		}
+		key, _ := json.Marshal(in)
+		r.Case("", in, "pd:"+string(key), true)
+	}
+}
+
 func main() {
 	r := vx.Start("C02", "engine")
 	r.Cases("From FL Require Import Engine.Corr.\nClose Scope Z_scope.\nOpen Scope nat_scope.\n", "ecase", 120)
@@ -693,6 +882,13 @@ func main() {
 			}
 		}
 		r.Sum.Notes = append(r.Sum.Notes, fmt.Sprintf("%s: %d schedules, %d harness faults, exhaustive=%v", sc.Name, n, faults, exhaustive))
+	}
+	if only == "" || only == "preview-differential" {
+		n := 120
+		if r.Thorough() {
+			n = 3000
+		}
+		previewDifferential(r, n)
 	}
 	r.Finish()
 }
